@@ -21,19 +21,35 @@ theorem fw_frame_geometry (a : Anim) (g : Grid) (cols rows now : Nat) (hs : Shap
     Shaped r.2.1.grid cols rows ∧
     (∀ p ∈ r.2.1.prints, InRow cols p ∧ p.row = Int.ofNat a.row) ∧
     (∀ i, i ≠ a.row → r.2.1.grid.getD i [] = g.getD i []) := by
-  sorry
+  intro r
+  rcases Lemmas.C18.fw_tick_cases a g cols now with ⟨_, _, h⟩ | ⟨_, h⟩
+  · have hgood := Lemmas.C18.fw_step_good { a with lastStep := now } g cols rows hs
+    have hr : r.2.1 = (Fw.step { a with lastStep := now } g cols).2 := by simp only [r, h]
+    rw [hr]
+    exact hgood
+  · have hr : r.2.1 = { grid := g } := by simp only [r, h]
+    rw [hr]
+    exact Lemmas.C18.good_id g cols rows a.row hs
 
 theorem fw_start_geometry (style : Style) (g : Grid) (cols rows row speed : Nat) (text : List Char) (loop : Bool)
     (hs : Shaped g cols rows) :
     let r := Fw.start style g cols row text speed loop
     Shaped r.2.grid cols rows ∧ (∀ p ∈ r.2.prints, InRow cols p ∧ p.row = Int.ofNat row) ∧
     (∀ i, i ≠ row → r.2.grid.getD i [] = g.getD i []) := by
-  sorry
+  exact Lemmas.C18.fw_start_good style g cols rows row speed text loop hs
 
 theorem host_frame_geometry (a : Anim) (g : Grid) (cols rows now : Nat) (hs : Shaped g cols rows) :
     let r := Host.tick a g cols now
     Shaped r.2.1 cols rows ∧ (∀ i, i ≠ a.row → r.2.1.getD i [] = g.getD i []) := by
-  sorry
+  intro r
+  rcases Lemmas.C18.host_tick_cases a g cols now with ⟨_, _, h⟩ | ⟨_, h⟩
+  · have hgood := Lemmas.C18.host_step_good { a with lastStep := now } g cols rows hs
+    have hr : r.2.1 = (Host.step { a with lastStep := now } g cols).2 := by simp only [r, h]
+    rw [hr]
+    exact hgood
+  · have hr : r.2.1 = g := by simp only [r, h]
+    rw [hr]
+    exact Lemmas.C18.goodg_id g cols rows a.row hs
 
 /-! ### rate limit: once the clock is running a step happens no more often than every speed_ms -/
 
@@ -54,6 +70,7 @@ theorem fw_rate_limit (a : Anim) (g : Grid) (cols now : Nat) :
 theorem fw_steps_spaced (a : Anim) (g g' : Grid) (cols t t' : Nat) (ht : 0 < t) (htt : t ≤ t')
     (h1 : (Fw.tick a g cols t).2.2 = true) (h2 : (Fw.tick (Fw.tick a g cols t).1 g' cols t').2.2 = true) :
     a.speed ≤ t' - t := by
+  have _ := htt
   have hf := Lemmas.C18.fw_step_fields { a with lastStep := t } g cols
   have r1 := (fw_rate_limit a g cols t).1 h1
   have hsp : (Fw.tick a g cols t).1.speed = a.speed := by
